@@ -24,7 +24,7 @@ RULE = ("sessions over (host active / equipment passive and the reverse) x (enab
         "list_alarms, list_enabled_alarms, enable/disable_alarm, go_online, go_offline, send_remote_command, are_you_there} "
         "(incl. clear_collection_events followed by a new subscription; 15% of the sessions with the first answers of the passive side "
         "later than the active side's T6) and equipment actions {trigger (ids as numbers and as CollectionEventId members, one or two per call), set/clear alarm, control switches, value updates} and 0-3 disable/enable cycles of "
-        "either side; distinct by (configuration, link seed, call sequence); non-trivial when the API phase ran at least 5 calls; plus: re-subscription after clear_collection_events with another variable list under the same report id; sessions over the real TCP transport with disable / enable sequences of one or both sides (restart one, both down and up in either order, one side up-down-up alone)")
+        "either side; distinct by (configuration, link seed, call sequence); non-trivial when the API phase ran at least 5 calls; plus: re-subscription after clear_collection_events with another variable list under the same report id; sessions over the real TCP transport with disable / enable sequences of one or both sides (restart one, both down and up in either order, one side up-down-up alone); a network failure inside a message (one side receives only its first 1-30 bytes, then both see the connection end and the link comes back); an event report whose application-supplied value source fails once, followed by further events")
 ASSUMPTIONS = ["'within a bounded time' is virtual time: at most 10 establish-communications timer expiries per convergence, "
                "with a 20 s wall-clock watchdog whose firing is inconclusive unless every thread is parked",
                "the in-memory link reproduces TCP connection semantics (see lib/pipe.py, lib/link.py)",
@@ -37,7 +37,8 @@ TECHNIQUE = "runtime differential + exactly-once monitors on two real endpoints 
 SHARDS = {"quick": 8, "thorough": 16}
 TIMEOUT = {"quick": 500, "thorough": 3400}
 FLOORS = {"sessions.reached_api_phase": 20, "sessions.with_restart_cycle": 5, "oracle.host_calls": 200, "oracle.events_exactly_once": 40,
-          "convergence.checked": 30}
+          "convergence.checked": 30, "sessions.with_network_failure_inside_a_message": 5,
+          "sessions.event_report_whose_value_source_failed": 5}
 
 CODE = {"EQUIPMENT_OFFLINE": 1, "ATTEMPT_ONLINE": 2, "HOST_OFFLINE": 3, "ONLINE_LOCAL": 4, "ONLINE_REMOTE": 5}
 
@@ -62,7 +63,23 @@ class Session:
         self.hs = PipeHsmsSettings(connect_mode=A if host_active else P, device_type=secsgem.common.DeviceType.HOST, **common)
         self.es = PipeHsmsSettings(connect_mode=P if host_active else A, device_type=secsgem.common.DeviceType.EQUIPMENT, **common)
         self.host = secsgem.gem.GemHostHandler(self.hs)
-        self.eq = secsgem.gem.GemEquipmentHandler(self.es, initial_control_state=initial_control)
+        sess = self
+
+        class Equipment(secsgem.gem.GemEquipmentHandler):
+            """An equipment whose data value 32 comes from a source of its own (documented override) that can fail."""
+
+            def on_dv_value_request(self, dvid, dv):
+                if dv.dvid == 32:
+                    if sess.sensor_fails:
+                        sess.sensor_fails = False
+                        sess.sensor_failures += 1
+                        raise RuntimeError("sensor not ready")
+                    return dv.value_type(3232)
+                return super().on_dv_value_request(dvid, dv)
+
+        self.sensor_fails = False
+        self.sensor_failures = 0
+        self.eq = Equipment(self.es, initial_control_state=initial_control)
         hp, ep = self.hs.create_connection(), self.es.create_connection()
         self.link = Link(hp if host_active else ep, ep if host_active else hp, seed=link_seed)
         if self.slow_select:
@@ -85,12 +102,15 @@ class Session:
         self.eq.alarms[100] = Alarm(100, "al100", "text one", 3, 5100, 6100)
         self.eq.alarms[101] = Alarm(101, "al101", "second", 65, 5101, 6101)
         self.eq.collection_events[50] = CollectionEvent(50, "ce50", [30])
+        self.eq.data_values[32] = DataValue(32, "sensor", V.U2, use_callback=True)
+        self.eq.collection_events[52] = CollectionEvent(52, "ce52", [32])
         self.counter = itertools.count(ctx.rng.randint(1, 100000))     # identifies each trigger; no special values favoured
         self.triggered = []       # counter values whose S6F11 must reach the host
         self.received = []        # counter values seen by the host
         self.alarm_events = []    # (alid, alcd) seen by the host
         self.expected_alarm_events = []
         self.subscribed = False
+        self.subscribed52 = False
         self.calls = 0
         self.hist = []
         self.bad = False
@@ -357,6 +377,7 @@ class Session:
                                reports_left=sorted(map(str, eq.registered_reports)), links_left=sorted(map(str, eq.registered_collection_events)))
                 return
             self.subscribed = False
+            self.subscribed52 = False
             if not self.bad:
                 # the same report id with another list of variables
                 self.cur_dvs = [30, 31] if self.cur_dvs == [30] else [30]
@@ -425,6 +446,52 @@ class Session:
         _, err = self.call("subscribe", lambda: self.host.subscribe_collection_event(21, [30], report_id=4001))
         if err is not None and not self.bad:
             self.violation("subscribe_collection_event-fails", error=repr(err)[:200], ceid=21)
+
+    def failing_value_source(self):
+        """The application's own value source fails for one event report (event 52); whatever becomes of that report, the
+        events triggered afterwards must still reach the host."""
+        if not self.subscribed52:
+            _, err = self.call("subscribe", lambda: self.host.subscribe_collection_event(52, [32], report_id=4002))
+            if err is not None or self.bad:
+                return
+            self.subscribed52 = True
+        self.hist.append("trigger(52) while its value source fails")
+        self.sensor_fails = True
+        n0 = self.sensor_failures
+        self.eq.trigger_collection_events([52])
+        end = time.monotonic() + 5
+        while time.monotonic() < end and self.sensor_failures == n0:
+            time.sleep(0.002)
+        self.sensor_fails = False
+        self.ctx.count("sessions.event_report_whose_value_source_failed")
+
+    def network_failure(self):
+        """The network fails inside a message: one side receives only the first bytes of it, then both see the connection end.
+        The link comes back at once; both handlers must find each other again and agree on the data."""
+        rng = self.ctx.rng
+        towards = rng.choice(["host", "equipment"])
+        k = rng.choice([1, 3, 4, 5, 9, 13, rng.randint(1, 13), rng.randint(14, 30)])
+        self.hist.append(f"network failure after {k} bytes of a message towards the {towards}")
+        n0 = self.link.failures
+        conn0 = self.link.connections
+        self.link.break_after = (self.hp if towards == "host" else self.ep, k)
+        try:
+            # S1F1 from the host: the request travels towards the equipment, its answer towards the host
+            self.host.send_stream_function(self.host.stream_function(1, 1)())
+        except Exception:
+            pass
+        end = time.monotonic() + 5
+        while time.monotonic() < end and self.link.failures == n0:
+            time.sleep(0.002)
+        if self.link.failures == n0:
+            self.link.break_after = None
+            self.ctx.count("network_failure.no_traffic_in_that_direction")
+            return
+        end = time.monotonic() + 10
+        while time.monotonic() < end and self.link.connections == conn0:
+            time.sleep(0.002)
+        self.ctx.count("sessions.with_network_failure_inside_a_message")
+        self.converge("after-network-failure-inside-a-message")
 
     def wait_events(self):
         # (returns as soon as the reports are there. The report of an event is built by a thread of its own, it reads the
@@ -560,6 +627,15 @@ def _session(ctx, cfg, idx, inj=None):
         for i in range(ncalls):
             if s.bad:
                 break
+            if rng.random() < 0.04:
+                s.check_events("before-network-failure")
+                if s.bad:
+                    break
+                s.network_failure()
+                continue
+            if rng.random() < 0.05:
+                s.failing_value_source()
+                continue
             if i in cycle_at:
                 s.check_events("before-restart")
                 if s.bad:
